@@ -65,6 +65,11 @@ def cases(tier, seed):
     core = range(len(alpha)) if thorough else CORE
     for tup in itertools.product(core, repeat=3):
         yield {"k": "write", "files": [alpha[i] for i in tup]}
+    # histories on ONE container object: add and list interleaved (a listing must not disturb later additions)
+    for tup in itertools.product(range(6), repeat=3):
+        files = [[ALPHA[0], ALPHA[1], ALPHA[2], ALPHA[4], ALPHA[6], ALPHA[8]][i] for i in tup]
+        for pattern in ("ALALAL", "AALAL", "LAALL", "ALLAAL"):
+            yield {"k": "hist", "files": files, "ops": pattern}
     # read side: streams from the independent writer
     leaders = [0, 1, 15, 127, 128, 254, 255, 999]
     lists = [[ALPHA[0]], [ALPHA[1], ALPHA[4]], [ALPHA[6], ALPHA[0], ALPHA[2]], [ALPHA[13]], [ALPHA[12], ALPHA[8]], []]
@@ -92,6 +97,8 @@ def list_image(img):
 
 def cell_of(case):
     fs = case["files"]
+    if case["k"] == "hist":
+        return "hist|{}|{}".format(case["ops"], ",".join(lenclass(s["n"]) for s in fs))
     if case["k"] == "write":
         return "write|{}|{}|{}".format(",".join(lenclass(s["n"]) for s in fs) or "none",
                                        ",".join(s["pat"] for s in fs)[:40],
@@ -123,6 +130,31 @@ def check_case(case):
     def bad(symptom, expected, observed):
         viol.append({"component": "roundtrip", "cell": cell, "symptom": symptom, "expected": expected, "observed": observed, "input": case})
 
+    if case["k"] == "hist":
+        from cocoasm.virtualfiles.cassette import CassetteFile
+        cf = CassetteFile()
+        added = []
+        todo = list(case["files"])
+        try:
+            for step, op in enumerate(case["ops"]):
+                if op == "A" and todo:
+                    f = todo.pop(0)
+                    cf.add_file(C.to_coco(f))
+                    added.append(f)
+                elif op == "L":
+                    listed = [C.listed_to_dict(x) for x in cf.list_files()]
+                    d = compare_lists({"files": added}, listed)
+                    if d:
+                        bad("after {}: {}".format(case["ops"][:step + 1], d[0]), d[1], d[2])
+                        break
+        except Exception as e:
+            t, w = common._raiser(e)
+            bad("history raised {}@{}".format(t, w), "listing", repr(e)[:100])
+        res["state"] = "hist:{}:{}".format(case["ops"], zlib.crc32(bytes(cf.get_buffer())))
+        res["transitions"] = len(case["ops"])
+        if viol:
+            res["viol"] = viol
+        return res
     try:
         if case["k"] == "write":
             img = build_image(case)
